@@ -320,6 +320,46 @@ def b_float_rows(case, ctx):
             check(np.array_equal(K.reshape(-1)[ui][uinv], K.reshape(-1)), "C06.float|unique_float|reconstruct", "")
 
 
+@body("C06.grid_injective")
+def b_grid(case, ctx):
+    """hashable_rows on the full cartesian grid V^c of a value set V: every row is distinct, so every
+    hash must be distinct -- this checks *all pairs* of grid rows for collisions in one call."""
+    c = case["c"]
+    V = np.array(case["values"], dtype=np.int64)
+    grid = np.stack(np.meshgrid(*([V] * c), indexing="ij"), axis=-1).reshape((-1, c))
+    if case.get("reverse"):
+        grid = grid[::-1]
+    ctx.note(nontrivial=True, cls=f"grid:c{c}")
+    h = grouping.hashable_rows(grid)
+    check(len(h) == len(grid), "C06.grid|length", "")
+    nu = len(np.unique(h))
+    if nu != len(grid):
+        # find one colliding pair for the message
+        order = np.argsort(h, kind="stable")
+        hs = h[order]
+        j = int(np.nonzero(hs[1:] == hs[:-1])[0][0])
+        raise Violation("C06.grid|hashable_rows|collision", f"c={c}: rows {grid[order[j]].tolist()} and {grid[order[j + 1]].tolist()} hash equal")
+    u, inv = grouping.unique_rows(grid)
+    check(len(u) == len(grid), "C06.grid|unique_rows|count", f"{len(u)} != {len(grid)}")
+    # duplicated grid: every class has exactly two members
+    g = grouping.group_rows(np.vstack((grid, grid)), require_count=2)
+    check(len(g) == len(grid) and (np.sort(g, axis=1)[:, 1] - np.sort(g, axis=1)[:, 0] == len(grid)).all(), "C06.grid|group_rows|pairs", "")
+
+
+def grid_values(c, extra=()):
+    p = 64 // c
+    T = 2 ** (p - 1) - 1
+    vals = {0, 1, -1, 2, -2, 3, T - 1, -(T - 1), T - 2, -(T - 2)}
+    for j in range(0, p - 1, max(1, (p - 1) // (30 if c <= 2 else 7 if c == 3 else 4))):
+        for v in (2**j, -(2**j), 2**j - 1, -(2**j) + 1):
+            if abs(v) < T:
+                vals.add(v)
+    for v in extra:
+        if abs(v) < T:
+            vals.add(v)
+    return sorted(vals)
+
+
 # ---------------------------------------------------------------------------------- strategies
 
 
@@ -424,6 +464,21 @@ def s_rows_edge(ctx):
                     yield {"rows": [r2, r1, [0] * c, r2, r1], "c": c, "dtype": "int64"}
 
     ctx.enumerate("C06.rows", gen(), label="rows_boundary_grid")
+
+
+@subcheck("C06", "grid", shards={"quick": 4, "thorough": 4})
+def s_grid(ctx):
+    def gen():
+        for c in (1, 2, 3, 4):
+            yield {"c": c, "values": grid_values(c)}
+        for c in (2, 3, 4):
+            p = 64 // c
+            # values either side of the packing limit: the void fallback must be injective too
+            yield {"c": c, "values": [0, 1, -1, 2 ** (p - 1) - 2, 2 ** (p - 1) - 1, 2 ** (p - 1), -(2 ** (p - 1)) + 1, -(2 ** (p - 1))]}
+        for c in (5, 6):
+            yield {"c": c, "values": [0, 1, -1, 2**31, -(2**31), 2**62, -(2**63), 2**63 - 1]}
+
+    ctx.enumerate("C06.grid_injective", gen(), label="hashable_rows_pairwise_collision_grid")
 
 
 @subcheck("C06", "values", shards={"quick": 2, "thorough": 8})
